@@ -271,6 +271,16 @@ Definition is_open (m : mstate) (h : nat) : bool :=
 Definition ty_of (m : mstate) (h : nat) : htype :=
   match hstate_of m h with Some r => h_ty r | None => TOther end.
 Definition is_stream (t : htype) : bool := match t with TTcp | TPipe => true | _ => false end.
+(* which descriptor fields a handle type has: streams io_watcher.fd, accepted_fd, queued_fds;
+   uv_udp_t io_watcher.fd; the other types none (uv_poll_t watches a descriptor of the caller) *)
+Definition slot_ok (t : htype) (s : hslot) : bool :=
+  match t with
+  | TTcp | TPipe => true
+  | TUdp => match s with HIo => true | _ => false end
+  | TOther => false
+  end.
+(* handle h is open and has field s *)
+Definition hok (m : mstate) (h : nat) (s : hslot) : bool := is_open m h && slot_ok (ty_of m h) s.
 
 (* return codes *)
 Definition RC_OK := 0. Definition RC_ERR := 1. Definition RC_BUSY := 2.
@@ -327,7 +337,9 @@ Definition op_loop_init (m : mstate) (nofd : nat) (usable : bool) : prog (mstate
      (fun (k : mstate -> prog (mstate * nat)) =>
         if m_ginit m then k m
         else Create KPipe2 [OProc false; OProc true] true (fun a3 =>
-               if is_ok a3 then k (set_ginit m) else Ret (set_abort m, RC_ABORT)))
+               if is_ok a3 then k (set_ginit m)
+               else (* abort(): the process is gone, and with it every descriptor it held *)
+                    CloseIf (fun _ => true) false (Ret (set_abort m, RC_ABORT))))
      (fun m =>
      (* uv__process_init -> uv_signal_init -> uv__signal_loop_once_init, signal.c:260-277 *)
      Create KPipe2 [OLoop l SSigR; OLoop l SSigW] true (fun a4 =>
@@ -390,7 +402,7 @@ Definition op_hinit (m : mstate) (h : nat) (t : htype) (withsock : bool) : prog 
     if negb (Nat.eqb h (length (m_handles m))) then Ret (m, RC_MISUSE)
     else
     let sock (c : bool -> prog (mstate * nat)) : prog (mstate * nat) :=
-      if withsock then Create KSocket [OHandle h HIo] true (fun a => c (is_ok a)) else c true in
+      if withsock && slot_ok t HIo then Create KSocket [OHandle h HIo] true (fun a => c (is_ok a)) else c true in
     match t with
     | TTcp | TPipe =>
         stream_init_emfile l (sock (fun ok =>
@@ -405,7 +417,7 @@ Definition op_hinit (m : mstate) (h : nat) (t : htype) (withsock : bool) : prog 
    uv__udp_bind / uv__udp_maybe_deferred_bind (udp.c:372-379): create the socket unless the
    handle has one; later failures (setsockopt, bind, connect, listen) leave it in the handle. *)
 Definition op_ensure (m : mstate) (h : nat) (sysok : bool) : prog (mstate * nat) :=
-  if negb (is_open m h) then Ret (m, RC_MISUSE)
+  if negb (hok m h HIo) then Ret (m, RC_MISUSE)
   else
   Has (own_is (OHandle h HIo)) (fun b =>
     if b then Ret (m, if sysok then RC_OK else RC_ERR)
@@ -414,7 +426,7 @@ Definition op_ensure (m : mstate) (h : nat) (sysok : bool) : prog (mstate * nat)
 
 (* uv_pipe_bind2, pipe.c:103-145 *)
 Definition op_pipe_bind (m : mstate) (h : nat) (sysok : bool) : prog (mstate * nat) :=
-  if negb (is_open m h) then Ret (m, RC_MISUSE)
+  if negb (hok m h HIo) then Ret (m, RC_MISUSE)
   else
   Has (own_is (OHandle h HIo)) (fun b =>
     if b then Ret (m, RC_ERR)
@@ -427,7 +439,7 @@ Inductive fdsrc := SrcFd (fd : nat) | SrcGiven (g : nat).
 
 (* uv_tcp_open / uv_pipe_open / uv_udp_open succeeded ([ok]) or not *)
 Definition op_open (m : mstate) (h : nat) (src : fdsrc) (ok : bool) : prog (mstate * nat) :=
-  if negb (is_open m h) then Ret (m, RC_MISUSE)
+  if negb (hok m h HIo) then Ret (m, RC_MISUSE)
   else if negb ok then Ret (m, RC_ERR)
   else
   Has (own_is (OHandle h HIo)) (fun b =>
@@ -453,7 +465,7 @@ Definition op_srvio (m : mstate) (h : nat) (fuel : nat) : prog (mstate * nat) :=
   match m_loop m with
   | None => Ret (m, RC_MISUSE)
   | Some l =>
-    if negb (is_open m h) then Ret (m, RC_MISUSE)
+    if negb (hok m h HAcc) then Ret (m, RC_MISUSE)
     else
     Has (own_is (OHandle h HAcc)) (fun b =>
       if b then Ret (m, RC_MISUSE)
@@ -477,7 +489,7 @@ Definition shift_queue (h : nat) : owner -> owner := fun o =>
 
 (* uv_accept, stream.c:537-600 *)
 Definition op_accept (m : mstate) (s c : nat) (ok : bool) : prog (mstate * nat) :=
-  if negb (is_open m s && is_open m c) || Nat.eqb s c then Ret (m, RC_MISUSE)
+  if negb (hok m s HAcc && hok m c HIo) || Nat.eqb s c then Ret (m, RC_MISUSE)
   else
   Has (own_is (OHandle s HAcc)) (fun b =>
     if negb b then Ret (m, RC_ERR)                          (* UV_EAGAIN *)
@@ -586,15 +598,12 @@ Fixpoint spawn_open (m : mstate) (i : nat) (sd : list sdesc) (done : list nat) (
   match sd with
   | [] => Ret (m, rc)
   | SdPipe sh :: r =>
-      Has (own_is (OTemp (2 * i))) (fun have =>
-        if negb have then spawn_open m (S i) r done rc
-        else
-        close_field (OTemp (2 * i + 1))                                  (* process.c:245 *)
-          (Has (own_is (OHandle sh HIo)) (fun busy =>
-             if busy || negb (is_open m sh) then                          (* uv__stream_open: UV_EBUSY *)
-               spawn_unwind m done (spawn_error_temps (Ret (m, RC_ERR)))
-             else Relabel (move (OTemp (2 * i)) (OHandle sh HIo))
-                    (spawn_open m (S i) r (sh :: done) rc))))
+      close_field (OTemp (2 * i + 1))                                    (* process.c:245 *)
+        (Has (own_is (OHandle sh HIo)) (fun busy =>
+           if busy || negb (hok m sh HAcc) then                           (* uv__stream_open: UV_EBUSY *)
+             spawn_unwind m done (spawn_error_temps (Ret (m, RC_ERR)))
+           else Relabel (move (OTemp (2 * i)) (OHandle sh HIo))
+                  (spawn_open m (S i) r (sh :: done) rc)))
   | _ :: r => spawn_open m (S i) r done rc
   end.
 
@@ -657,7 +666,7 @@ Definition op_prog (m : mstate) (o : op) : prog (mstate * nat) :=
   | OOpen h src ok => op_open m h src ok
   | OSrvIo h fuel => op_srvio m h fuel
   | OAccept s c ok => op_accept m s c ok
-  | ORecvFds h n => if is_open m h then op_recvfds m h n else Ret (m, RC_MISUSE)
+  | ORecvFds h n => if hok m h HAcc then op_recvfds m h n else Ret (m, RC_MISUSE)
   | OClose h => op_close m h
   | ORun => op_run m
   | OFsEventStart h => op_fsevent_start m h
